@@ -52,6 +52,14 @@ def cases(tier, seed):
     for N in ([2, 3] if tier == "quick" else [2, 3, 4]):
         for st in ("se3", "quat"):
             out.append(dict(name="align_origin_%s_N%d" % (st, N), kind="origin", st=st, N=N))
+    # option wiring with Umeyama replaced by its contract (no SVD reasoning): all four flag combinations
+    for fl in FLAGS:
+        for st in ("se3", "quat"):
+            for n in ((-1, 2) if tier == "quick" else (-1, 2, 3)):
+                out.append(dict(name="align_wiring_%s_%s_N3_n%d" % (fl, st, n), kind="wiring", fl=fl, st=st, N=3, n=n))
+    for fn_ in ("ape", "rpe"):
+        for m in ("align", "align_scale", "scale_only"):
+            out.append(dict(name="%s_recorded_matrix_%s_umeyama_contract" % (fn_, m), kind="recorded", fn=fn_, m=m, N=3, contract=True))
     for fn_ in ("ape", "rpe"):
         for m in ("align", "align_scale", "scale_only", "origin"):
             if tier == "quick" and fn_ == "ape" and m in ("align", "align_scale"):
@@ -93,6 +101,34 @@ def unchanged(t, snap):
         elif not common.same_terms(cur, v):
             return False
     return True
+
+
+def pose_goals(est, Es, N, mode, rz, tz, sz):
+    """every pose of est (all three representations) is the input pose moved in the given mode by (rz, tz, sz)"""
+    g = {}
+    pos, poses, quat = est.positions_xyz, est.poses_se3, est.orientations_quat_wxyz
+    pe, pp, ro, qo = [], [], [], []
+    for i in range(N):
+        p = Es.p[i]
+        if mode == "scale_only":
+            exp = [sz * p[a] for a in range(3)]
+            Rexp = zR(Es.q[i])
+        else:
+            rp = zmat_vec(rz, p)
+            exp = [(sz * rp[a] if mode == "sim" else rp[a]) + tz[a] for a in range(3)]
+            Rexp = zmat_mul(rz, zR(Es.q[i]))
+        pe += [toz(pos[i][a]) == exp[a] for a in range(3)]
+        pp += [toz(poses[i][a, 3]) == exp[a] for a in range(3)]
+        ro += [toz(poses[i][a, b]) == Rexp[a][b] for a in range(3) for b in range(3)]
+        ro += [toz(poses[i][3, b]) == (1 if b == 3 else 0) for b in range(4)]
+        Rq = zR([toz(quat[i][k]) for k in range(4)])
+        qo += [Rq[a][b] == Rexp[a][b] for a in range(3) for b in range(3)]
+        qo.append(sum(toz(quat[i][k]) * toz(quat[i][k]) for k in range(4)) == 1)
+    g["positions_moved_by_exactly_the_returned_transform"] = z3.And(pe)
+    g["pose_matrix_translations_moved_by_exactly_the_returned_transform"] = z3.And(pp)
+    g["pose_matrix_rotations_are_r_times_R"] = z3.And(ro)
+    g["quaternions_describe_r_times_R"] = z3.And(qo)
+    return g
 
 
 def run_align(case, col):
@@ -139,28 +175,7 @@ def run_align(case, col):
         g["count_unchanged"] = z3.BoolVal(est.num_poses == N and len(est.positions_xyz) == N and len(est.poses_se3) == N
                                           and len(est.orientations_quat_wxyz) == N)
         if est.num_poses == N:
-            pos, poses, quat = est.positions_xyz, est.poses_se3, est.orientations_quat_wxyz
-            pe, pp, ro, qo = [], [], [], []
-            for i in range(N):
-                p = Es.p[i]
-                if mode == "scale_only":
-                    exp = [sz * p[a] for a in range(3)]
-                    Rexp = zR(Es.q[i])
-                else:
-                    rp = zmat_vec(rz, p)
-                    exp = [(sz * rp[a] if mode == "sim" else rp[a]) + tz[a] for a in range(3)]
-                    Rexp = zmat_mul(rz, zR(Es.q[i]))
-                pe += [toz(pos[i][a]) == exp[a] for a in range(3)]
-                pp += [toz(poses[i][a, 3]) == exp[a] for a in range(3)]
-                ro += [toz(poses[i][a, b]) == Rexp[a][b] for a in range(3) for b in range(3)]
-                ro += [toz(poses[i][3, b]) == (1 if b == 3 else 0) for b in range(4)]
-                Rq = zR([toz(quat[i][k]) for k in range(4)])
-                qo += [Rq[a][b] == Rexp[a][b] for a in range(3) for b in range(3)]
-                qo.append(sum(toz(quat[i][k]) * toz(quat[i][k]) for k in range(4)) == 1)
-            g["positions_moved_by_exactly_the_returned_transform"] = z3.And(pe)
-            g["pose_matrix_translations_moved_by_exactly_the_returned_transform"] = z3.And(pp)
-            g["pose_matrix_rotations_are_r_times_R"] = z3.And(ro)
-            g["quaternions_describe_r_times_R"] = z3.And(qo)
+            g.update(pose_goals(est, Es, N, mode, rz, tz, sz))
         g["reference_unchanged"] = z3.BoolVal(unchanged(state["ref"], state["snap"]))
         runner.check_obligations(col, ctx, g, inputs, replay, descr=case["name"], timeout_ms=90000)
 
@@ -223,6 +238,113 @@ def replay_align(vals, Rf, Es, st, n, kw):
     return bool(bad), "; ".join(bad[:4]) or "ok"
 
 
+FLAGS = {"FF": (False, False), "TF": (True, False), "FT": (False, True), "TT": (True, True)}
+
+
+class umeyama_contract:
+    """context manager: geometry.umeyama_alignment of the *symbolically loaded* evo replaced by its contract as seen
+    by align(): an arbitrary proper rotation R(q), an arbitrary translation and an arbitrary positive scale (exactly
+    1.0 without scale estimation; that Umeyama meets this contract is C03).  The wiring obligations -- which flags
+    reach Umeyama, which points, and in which mode its result is applied -- then need no SVD reasoning at all."""
+
+    def __init__(self, AL, zs):
+        self.AL, self.zs, self.calls = AL, zs, []
+
+    def __enter__(self):
+        self.G = common.S("evo.core.trajectory").geometry
+        self.saved = self.G.umeyama_alignment
+
+        def stub(x, y, with_scale=False):
+            r = symrot.new_rotation(self.AL.q[0])
+            t = symnp.array([SymReal(v) for v in self.AL.p[0]])
+            c = SymReal(self.zs) if with_scale else 1.0
+            self.calls.append(dict(x=x, y=y, with_scale=with_scale, r=r, t=t, c=c))
+            return r, t, c
+        self.G.umeyama_alignment = stub
+        return self
+
+    def __exit__(self, *a):
+        self.G.umeyama_alignment = self.saved
+        return False
+
+
+def generic_positions_hook(trajs, inputs, also=()):
+    """witness hook: the solver's first model of a wiring obligation often has degenerate positions (all zero), which
+    the real Umeyama refuses; the same negated obligation is solved again with the positions pinned to generic
+    rational values (still a model of the negated obligation) and replayed on the real code"""
+    def hook(ctx, query):
+        for seed in (0, 1):
+            # everything pinned first (the query becomes an evaluation), then the positions alone
+            full = [e for t in trajs + list(also) for e in t.pin(seed)]
+            pos = []
+            for t in trajs:
+                names = {str(v) for row in t.p for v in row}
+                pos += [e for e in t.pin(seed) if str(e.arg(0)) in names]
+            for pins in (full, pos):
+                r2, m2 = ctx.solve(list(query) + pins, kind="generic-positions", full=True, timeout_ms=20000)
+                if r2 == "sat":
+                    yield runner.model_values(m2, inputs)
+                    break
+    return hook
+
+
+def run_wiring(case, col):
+    """align() with Umeyama replaced by its contract: all four flag combinations (both flags set is what evo_ape /
+    evo_rpe / evo_traj pass for -s without -a and means scale-only, as documented for correct_only_scale)"""
+    fl, st, N, n = case["fl"], case["st"], case["N"], case["n"]
+    cs, cos = FLAGS[fl]
+    Rf, Es, AL = SymTraj("r", N, stamps=False), SymTraj("e", N, stamps=False), SymTraj("AL", 1, stamps=False)
+    zs = z3.Real("align_scale")
+    inputs = dict(Rf.inputs(), **Es.inputs())
+    inputs.update(AL.inputs())
+    inputs["align_scale"] = zs
+    kw = dict(correct_scale=cs, correct_only_scale=cos)
+    mode = "scale_only" if cos else ("sim" if cs else "rigid")
+    used = N if n == -1 else n
+    state = {}
+
+    def fn():
+        ref, est = Rf.build(st), Es.build(st)
+        state["ref"], state["snap"] = ref, snapshot(ref)
+        with umeyama_contract(AL, zs) as U:
+            r, t, s = est.align(ref, n=n, **kw)
+        state["calls"] = U.calls
+        return est, r, t, s
+
+    def replay(vals):
+        return replay_align(vals, Rf, Es, st, n, kw)
+
+    def on_ok(pr):
+        est, r, t, s = pr.out
+        calls = state["calls"]
+        g = {"umeyama_called_exactly_once": z3.BoolVal(len(calls) == 1)}
+        if len(calls) == 1:
+            c = calls[0]
+            g["scale_estimation_requested_iff_a_scale_flag_is_set"] = z3.BoolVal(bool(c["with_scale"]) == (cs or cos))
+            x, y = rnp.asarray(c["x"], dtype=object), rnp.asarray(c["y"], dtype=object)
+            ok_shape = x.shape == (3, used) and y.shape == (3, used)
+            g["umeyama_gets_the_first_n_position_pairs_estimate_first"] = z3.And(
+                [toz(x[a, i]) == Es.p[i][a] for a in range(3) for i in range(used)] +
+                [toz(y[a, i]) == Rf.p[i][a] for a in range(3) for i in range(used)]) if ok_shape else z3.BoolVal(False)
+            rz0 = zR(AL.q[0])
+            g["returns_umeyamas_result"] = z3.And(
+                [toz(r[a, b]) == rz0[a][b] for a in range(3) for b in range(3)] +
+                [toz(t[a]) == AL.p[0][a] for a in range(3)] + [toz(s) == (zs if (cs or cos) else 1)])
+        rz = [[toz(r[a, b]) for b in range(3)] for a in range(3)]
+        tz = [toz(v) for v in t]
+        sz = toz(s)
+        g["count_unchanged"] = z3.BoolVal(est.num_poses == N and len(est.positions_xyz) == N and len(est.poses_se3) == N
+                                          and len(est.orientations_quat_wxyz) == N)
+        if est.num_poses == N:
+            g.update(pose_goals(est, Es, N, mode, rz, tz, sz))
+        g["reference_unchanged"] = z3.BoolVal(unchanged(state["ref"], state["snap"]))
+        runner.check_obligations(col, pr.ctx, g, inputs, replay, descr=case["name"], timeout_ms=60000,
+                                 witness_hook=generic_positions_hook([Rf, Es], inputs, also=[AL]))
+
+    runner.explore_case(col, fn, Rf.assumptions() + Es.assumptions() + AL.assumptions() + [zs > 0], on_ok, None,
+                        timeout_ms=60000, must_reach=("ok",), pins=common.pins_for(Rf, Es, AL))
+
+
 def run_origin(case, col):
     st, N = case["st"], case["N"]
     Rf, Es = SymTraj("r", N, stamps=False), SymTraj("e", N, stamps=False)
@@ -281,6 +403,11 @@ def run_recorded(case, col):
     fn_, m, N = case["fn"], case["m"], case["N"]
     Rf, Es = SymTraj("r", N), SymTraj("e", N)
     inputs = dict(Rf.inputs(), **Es.inputs())
+    contract = case.get("contract", False)
+    AL, zs = SymTraj("AL", 1, stamps=False), z3.Real("align_scale")
+    if contract:
+        inputs.update(AL.inputs())
+        inputs["align_scale"] = zs
     kw = dict(align=dict(align=True), align_scale=dict(align=True, correct_scale=True), scale_only=dict(correct_scale=True),
               origin=dict(align_origin=True))[m]
     Mx = common.S("evo.core.metrics")
@@ -293,6 +420,9 @@ def run_recorded(case, col):
     def fn():
         sc.ctx().memo.pop("svd_calls", None)
         mod = common.S("evo.main_" + fn_)
+        if contract:
+            with umeyama_contract(AL, zs):
+                return call(mod, Rf.build("se3"), Es.build("se3"), Mx, common.S("evo.core.units"))
         return call(mod, Rf.build("se3"), Es.build("se3"), Mx, common.S("evo.core.units"))
 
     def replay(vals):
@@ -342,12 +472,17 @@ def run_recorded(case, col):
         kpred = {}
         if "recorded_matrix.scale_only" in known and m == "scale_only":
             kpred["recorded_matrix.scale_only"] = z3.BoolVal(True)
-        runner.check_obligations(col, pr.ctx, g, inputs, replay, known=kpred, descr=case["name"], timeout_ms=90000)
+        runner.check_obligations(col, pr.ctx, g, inputs, replay, known=kpred, descr=case["name"], timeout_ms=90000,
+                                 witness_hook=(generic_positions_hook([Rf, Es], inputs, also=[AL]) if contract else None))
 
     def on_exc(pr):
         if pr.status != "exc:GeometryException":
             col.d["harness_errors"].append(dict(ob="path", why="unexpected %s: %s" % (pr.status, pr.exc)))
     Xz = [[Es.p[i][a] for i in range(N)] for a in range(3)]
+    if contract:
+        runner.explore_case(col, fn, Rf.assumptions() + Es.assumptions() + AL.assumptions() + [zs > 0], on_ok, on_exc,
+                            timeout_ms=90000, must_reach=("ok",), pins=common.pins_for(Rf, Es, AL))
+        return
     runner.explore_case(col, fn, Rf.assumptions() + Es.assumptions(), on_ok, on_exc, timeout_ms=90000, must_reach=("ok",),
                         pins=(svd_pins(Xz, [[Rf.p[i][a] for i in range(N)] for a in range(3)]) if m != "origin" else common.pins_for(Rf, Es)))
 
